@@ -9,6 +9,7 @@ import (
 	"net/http"
 	"net/url"
 	"sort"
+	"strconv"
 	"strings"
 
 	"github.com/getkin/kin-openapi/openapi3"
@@ -111,16 +112,25 @@ func ValidateRequest(ctx context.Context, input *RequestValidationInput) error {
 // appendToQueryValues adds to query parameters each value in the provided slice
 func appendToQueryValues[T any](q url.Values, parameterName string, v []T) {
 	for _, i := range v {
-		q.Add(parameterName, fmt.Sprint(i))
+		q.Add(parameterName, primitiveToString(i))
 	}
 }
 
 func joinValues(values []any, sep string) string {
 	strValues := make([]string, 0, len(values))
 	for _, v := range values {
-		strValues = append(strValues, fmt.Sprint(v))
+		strValues = append(strValues, primitiveToString(v))
 	}
 	return strings.Join(strValues, sep)
+}
+
+// primitiveToString renders a default value as the parameter decoders read it back:
+// numbers of a document are float64, and %v prints 1000000 as 1e+06.
+func primitiveToString(v any) string {
+	if f, ok := v.(float64); ok {
+		return strconv.FormatFloat(f, 'f', -1, 64)
+	}
+	return fmt.Sprint(v)
 }
 
 // defaultValueToString renders a default value for a header or cookie: arrays are
@@ -129,7 +139,7 @@ func defaultValueToString(value any) string {
 	if values, ok := value.([]any); ok {
 		return joinValues(values, ",")
 	}
-	return fmt.Sprint(value)
+	return primitiveToString(value)
 }
 
 // populateDefaultQueryParameters populates default values inside query parameters, while ensuring types are respected
@@ -142,7 +152,7 @@ func populateDefaultQueryParameters(q url.Values, parameterName string, value an
 			q.Add(parameterName, joinValues(t, ","))
 		}
 	default:
-		q.Add(parameterName, fmt.Sprint(value))
+		q.Add(parameterName, primitiveToString(value))
 	}
 }
 
